@@ -21,6 +21,8 @@ class Scalar (α : Type) extends LT α, LE α where
   ofNat : Nat → α          -- (double) n
   toNat : α → Nat          -- static_cast<ndsize_t>(x)
   isFinite : α → Bool
+  pow10 : Int → α         -- std::stod("1e<k>")
+  eps : α                  -- std::numeric_limits<double>::epsilon()
   beq : α → α → Bool       -- operator==
   decLt : DecidableRel (fun a b : α => a < b)
   decLe : DecidableRel (fun a b : α => a ≤ b)
@@ -43,6 +45,8 @@ instance : Scalar Float where
   ofNat := Float.ofNat
   toNat := fun f => f.toUInt64.toNat
   isFinite := Float.isFinite
+  pow10 := fun k => if k ≥ 0 then Float.ofScientific 1 false k.toNat else Float.ofScientific 1 true (-k).toNat
+  eps := Float.ofBits 0x3cb0000000000000
   beq := fun a b => a == b
   decLt := fun a b => Float.decLt a b
   decLe := fun a b => Float.decLe a b
@@ -60,6 +64,8 @@ instance : Scalar Int where
   ofNat := Int.ofNat
   toNat := Int.toNat
   isFinite := fun _ => true
+  pow10 := fun k => if k ≥ 0 then (10 : Int) ^ k.toNat else 0
+  eps := 0
   beq := fun a b => a == b
   decLt := fun a b => Int.decLt a b
   decLe := fun a b => Int.decLe a b
@@ -77,6 +83,8 @@ instance : Scalar Rat where
   ofNat := fun n => (n : Rat)
   toNat := fun q => q.floor.toNat
   isFinite := fun _ => true
+  pow10 := fun k => if k ≥ 0 then (10 : Rat) ^ k.toNat else 1 / (10 : Rat) ^ (-k).toNat
+  eps := 0
   beq := fun a b => a == b
   decLt := fun _ _ => inferInstance
   decLe := fun _ _ => inferInstance
